@@ -227,7 +227,7 @@ func apply(s []byte, L int, t tamper, r *rand.Rand) []byte {
 			n++
 		case "segmid":
 			o, _ := seg(t.J)
-			n = o + (wLen(L, t.J)+tagLen)/2
+			n = o + tagLen + 1
 		case "lasttag":
 			n = len(s) - 1
 		default:
